@@ -686,6 +686,7 @@ type raw struct {
 // desc: where an encoded object lives and its pointer word with offset 0.
 type desc struct {
 	null, imm bool
+	df        bool   // reach it through a double-far pointer (zero-sized objects at arbitrary addresses)
 	word      uint64 // imm: the complete pointer word (null, cap, empty struct)
 	seg, off  int
 }
@@ -734,10 +735,10 @@ func (e *raw) ptrWord(seg, pos int, d desc) uint64 {
 		return d.word
 	}
 	withOff := func(w uint64, off int) uint64 { return w | uint64(uint32(int32(off))<<2) }
-	if d.seg == seg && e.r.Intn(6) != 0 {
+	if !d.df && d.seg == seg && e.r.Intn(6) != 0 {
 		return withOff(d.word, d.off-pos-1)
 	}
-	if e.r.Intn(3) != 0 { // far pointer, one-word landing pad in the target's segment
+	if !d.df && e.r.Intn(3) != 0 { // far pointer, one-word landing pad in the target's segment
 		pad := len(e.segs[d.seg])
 		e.segs[d.seg] = append(e.segs[d.seg], withOff(d.word, d.off-pad-1))
 		return rd.FarPtr(uint32(d.seg), uint32(pad), false)
@@ -799,7 +800,8 @@ func (e *raw) place(body []uint64, slots []slot, word uint64, bodyOff int) desc 
 	for i, s := range slots {
 		e.segs[seg][off+s.at] = e.ptrWord(seg, off+s.at, ds[i])
 	}
-	return desc{word: word, seg: seg, off: off + bodyOff}
+	// empty objects (lists of length 0, void lists): sometimes through a double-far pointer
+	return desc{word: word, seg: seg, off: off + bodyOff, df: len(body) == 0 && e.r.Intn(3) == 0}
 }
 
 func (e *raw) structBody(v *Val, xd, xp int) ([]uint64, []slot) {
@@ -823,6 +825,15 @@ func (e *raw) enc(v *Val) desc {
 		xd, xp := e.extra(), e.extra()
 		dw, pc := len(v.Data)/8+xd, len(v.Ptrs)+xp
 		if dw == 0 && pc == 0 {
+			if e.r.Intn(3) == 0 {
+				// a zero-sized struct somewhere (start, middle or end of a segment), reached through a
+				// double-far pointer whose tag word is the all-zero struct pointer
+				seg, off := e.alloc(0)
+				if e.r.Bool() {
+					off = e.r.Intn(len(e.segs[seg]) + 1)
+				}
+				return desc{df: true, word: rd.StructPtr(0, 0, 0), seg: seg, off: off}
+			}
 			return desc{imm: true, word: rd.StructPtr(-1, 0, 0)}
 		}
 		body, slots := e.structBody(v, xd, xp)
